@@ -871,6 +871,7 @@ class Facts:
             self.bodies[body.path] = body
             self.by_owner[body.owner].append(body)
         self.adts = {a['path']: a for a in raw['adts']}
+        self.ext_adts = {a['path']: a for a in raw.get('ext_adts', [])}
         self.impls = raw['impls']
         self.statics = {s['path']: s for s in raw['statics']}
         self.fns = {f['path']: f for f in raw['fns']}
